@@ -335,6 +335,7 @@ func checkC04(p *Program, r *Report) {
 		w.checkKernelArgs()
 	}
 	r.Floor("R04.1", "vectorised wrappers", n, 41)
+	checkNoAppendOnShared(p, r, models)
 	r.Floor("R04.2", "write obligations discharged", r.PerRule["R04.2"][0], 40)
 	r.Floor("R04.3", "broadcast obligations discharged", r.PerRule["R04.3"][0], 100)
 	r.Floor("R04.4", "table-parameter obligations", r.PerRule["R04.4"][0], 7)
@@ -1061,4 +1062,97 @@ func describeIdx(v ssa.Value) string {
 		return p.Name()
 	}
 	return v.Name()
+}
+
+// ---- R04.6: state buffers that alias the shared state array are never appended to ----
+
+// checkNoAppendOnShared: in every kernel (and the functions it calls), `append(s, …)` where s derives from a
+// slice parameter or from an Unroll() result may write beyond len(s) into the backing array — for a state row
+// unrolled from the shared states array that is the next cell's row.
+func checkNoAppendOnShared(p *Program, r *Report, models []*Model) {
+	r.Rule("R04.6", "no growth of aliased buffers: in kernels and their helpers, append is never applied to (a reslice of) a slice parameter or an Unroll() result — such slices alias the shared state/input storage with spare capacity reaching into the next cell's row; a fresh slice (make, literal, nil) is required")
+	seen := map[*ssa.Function]bool{}
+	n := 0
+	var visit func(fn *ssa.Function, depth int)
+	visit = func(fn *ssa.Function, depth int) {
+		if fn == nil || seen[fn] || fn.Blocks == nil || !InModule(fn) || depth > 4 {
+			return
+		}
+		seen[fn] = true
+		n++
+		derived := map[ssa.Value]string{}
+		for _, prm := range fn.Params {
+			if isSliceType(prm.Type()) {
+				derived[prm] = "slice parameter `" + prm.Name() + "`"
+			}
+		}
+		for changed := true; changed; {
+			changed = false
+			eachInstr(fn, func(_ *ssa.BasicBlock, _ int, ins ssa.Instruction) {
+				v, ok := ins.(ssa.Value)
+				if !ok || derived[v] != "" {
+					return
+				}
+				switch x := ins.(type) {
+				case *ssa.Call:
+					if callName(x.Common()) == "Unroll" && recvOf(x.Common()) != nil && isNDType(recvOf(x.Common()).Type()) {
+						derived[v] = "result of Unroll()"
+						changed = true
+					}
+				case *ssa.Slice:
+					if d := derived[x.X]; d != "" && x.Max == nil {
+						derived[v] = d
+						changed = true
+					}
+				case *ssa.Phi:
+					for _, e := range x.Edges {
+						if d := derived[e]; d != "" {
+							derived[v] = d
+							changed = true
+						}
+					}
+				case *ssa.UnOp:
+					if a, ok := x.X.(*ssa.Alloc); ok && x.Op == token.MUL {
+						for _, ref := range refs(a) {
+							if st, ok := ref.(*ssa.Store); ok && st.Addr == ssa.Value(a) {
+								if d := derived[st.Val]; d != "" {
+									derived[v] = d
+									changed = true
+								}
+							}
+						}
+					}
+				}
+			})
+		}
+		k := 0
+		for _, c := range callsIn(fn) {
+			if b, ok := c.Common().Value.(*ssa.Builtin); ok && b.Name() == "append" {
+				if d := derived[c.Common().Args[0]]; d != "" {
+					k++
+					r.Fail("R04.6", fmt.Sprintf("%s:append#%d", FuncKey(fn), k), p.Pos(c.Pos()), fmt.Sprintf("append to a %s: it aliases shared array storage (a state row unrolled from the states array has capacity up to the end of the array), so the appended elements overwrite the next cell's state row while that cell's goroutine uses it", d))
+				}
+				continue
+			}
+			if f := c.Common().StaticCallee(); f != nil {
+				visit(f, depth+1)
+			}
+		}
+		if k == 0 {
+			r.OK("R04.6", FuncKey(fn)+": no append on parameter/Unroll-derived slices")
+		}
+	}
+	for _, m := range models {
+		if m.Kernel != nil {
+			visit(m.Kernel, 0)
+		}
+		if m.Closure != nil {
+			for _, c := range callsIn(m.Closure) {
+				if f := c.Common().StaticCallee(); f != nil && InModule(f) && !isNDMethod(f) {
+					visit(f, 0)
+				}
+			}
+		}
+	}
+	r.Floor("R04.6", "kernel functions scanned", n, 45)
 }
